@@ -1364,8 +1364,9 @@ def main(R):
                      "names, device, lock state, container types; state_dict: keys, values, batch sizes (documented: no names); "
                      "pytree: all but lock state; to_dict/namedtuple/struct array: keys, values (+ the batch size the caller passes again)",
                      "key ORDER is not compared (equality of tensordicts is by key)",
-                     "the model covers TensorDict trees with tensor and NonTensorData entries; lazy stacks, jagged tensors, tensorclasses, "
-                     "worker-thread consolidation of non-contiguous / mis-aligned leaves and the use_buffer storage are judged by the oracle only"]
+                     "the model covers TensorDict trees with tensor and NonTensorData entries (every consolidate configuration incl. worker threads, "
+                     "file and use_buffer targets); lazy stacks, jagged tensors, tensorclasses, in-place consolidation and nested "
+                     "tensordicts carrying their own snapshot are judged by the oracle only"]
     R.trusted = ["harness/c11_impl.py (builders, canonical observation) and the per-format table of carried fields",
                  "torch's view / copy / pickling of storages; multiprocessing transport"]
     R.step_prove()
